@@ -1,0 +1,25 @@
+//go:build verif
+
+// Package verifhook provides named hook points for verification builds (build tag
+// "verif"). Without the tag Point is an empty function that the compiler inlines away.
+package verifhook
+
+import "sync/atomic"
+
+var callback atomic.Pointer[func(name string)]
+
+// Set registers the function called at every hook point (nil to remove it).
+func Set(f func(name string)) {
+	if f == nil {
+		callback.Store(nil)
+		return
+	}
+	callback.Store(&f)
+}
+
+// Point calls the registered callback, if any, with the name of the hook point.
+func Point(name string) {
+	if f := callback.Load(); f != nil {
+		(*f)(name)
+	}
+}
